@@ -216,11 +216,14 @@ def gen_json_strategy_dict(r, gen_disjoint_dict):
     return w(b), w(l), w(x), w(e), {'table': {'/outer/metadata': s}, 'transients': []}
 
 # ------------------------------------------------------------------ own walk: separated, also below items both sides patched
-def deep_separated(ld, rd):
+def deep_separated(ld, rd, adjacent_ok=False):
     """Like c05_merge.walk_separated (own walk over two diffs of one container, no nbdime code), except that a sequence
     item PATCHED by both sides is not by itself a meeting point: the two patches are walked recursively.  An item one
     side removed and the other removed or patched, a gap used by both, or an insertion of one side next to an item the
-    other removed or patched, still is."""
+    other removed or patched, still is.
+    adjacent_ok (the adj-* families): an insertion of one side directly in front of or behind an item that BOTH sides
+    patched is not a meeting point either (nbdime's chunk types AP/P and P/AP: the insertion is one-sided, the two
+    patches are merged recursively); next to an item only the OTHER side removed or patched it still is."""
     if not ld or not rd: return True
     if all(isinstance(e.get('key'), int) and not isinstance(e.get('key'), bool) for e in ld + rd):
         def info(d):
@@ -236,11 +239,244 @@ def deep_separated(ld, rd):
         (lr, lg, lp), (rr, rg, rp) = li, ri
         if lr & (rr | set(rp)) or rr & set(lp) or lg & rg: return False
         lt = lr | set(lp); rt = rr | set(rp)
-        if any(g in rt or (g - 1) in rt for g in lg): return False
-        if any(g in lt or (g - 1) in lt for g in rg): return False
-        return all(deep_separated(lp[k], rp[k]) for k in set(lp) & set(rp))
+        both = (set(lp) & set(rp)) if adjacent_ok else set()
+        if any(p in rt and p not in both for g in lg for p in (g, g - 1)): return False
+        if any(p in lt and p not in both for g in rg for p in (g, g - 1)): return False
+        return all(deep_separated(lp[k], rp[k], adjacent_ok) for k in set(lp) & set(rp))
     lk = {e['key']: e for e in ld}; rk = {e['key']: e for e in rd}
     for k in set(lk) & set(rk):
         a, b = lk[k], rk[k]
-        if not (a['op'] == 'patch' and b['op'] == 'patch' and deep_separated(a['diff'], b['diff'])): return False
+        if not (a['op'] == 'patch' and b['op'] == 'patch' and deep_separated(a['diff'], b['diff'], adjacent_ok)): return False
     return True
+
+# ------------------------------------------------------------------ adj-*: one item patched by BOTH sides + one-sided insertions / deletions next to it
+FLANK_OPS = ['ins_front', 'ins_front', 'ins_behind', 'del_prev', 'del_next']
+
+def _flank_plan(r, n, i, k):
+    """who does what directly in front of / behind item i of a list of n items.  Returns {op: side}.  The mover (remote
+    in two draws of three) takes a non-empty set of flank operations; in 'split' draws the other side inserts on the
+    opposite flank (never next to an item the mover deleted)."""
+    mover = 'L' if k % 3 == 2 else 'R'
+    other = 'R' if mover == 'L' else 'L'
+    avail = [o for o in FLANK_OPS if not (o == 'del_prev' and i == 0) and not (o == 'del_next' and i >= n - 1)]
+    split = r.random() < 0.2
+    if split:
+        front = r.random() < 0.5
+        mine = [o for o in avail if (o in ('ins_front', 'del_prev')) == front]
+        ops = set(r.sample(mine, r.randint(1, len(set(mine))))) if mine else set()
+        plan = {o: mover for o in ops}
+        plan['ins_behind' if front else 'ins_front'] = other
+        return plan
+    ops = set(r.sample(avail, r.choice([1, 1, 1, 2, 2, 3])))
+    return {o: mover for o in ops}
+
+def _flank_build(base_items, i, versions, plan, new_items, sides):
+    """the list as the sides in `sides` ('L', 'R' or 'LR') leave it: item i in its version for `sides`, the planned
+    insertions / deletions of those sides"""
+    out = []
+    for p, it in enumerate(base_items):
+        if p == i and plan.get('ins_front', '-') in sides: out.extend(copy.deepcopy(new_items['ins_front']))
+        if p == i + 1 and plan.get('ins_behind', '-') in sides: out.extend(copy.deepcopy(new_items['ins_behind']))
+        if p == i - 1 and plan.get('del_prev', '-') in sides: continue
+        if p == i + 1 and plan.get('del_next', '-') in sides: continue
+        out.append(copy.deepcopy(versions[sides] if p == i else it))
+    if i + 1 == len(base_items) and plan.get('ins_behind', '-') in sides: out.extend(copy.deepcopy(new_items['ins_behind']))
+    return out
+
+def _differs(a, b): return _c(a) != _c(b)
+
+def _canon_shape(patched, removed, gaps):
+    """JSON-able shape of one side's diff of a list: patched positions, removed positions, [gap, number of new items];
+    a gap directly behind positions the same side removed is moved in front of them (the two spellings are one edit)"""
+    g2 = {}
+    for g, cnt in gaps.items():
+        while (g - 1) in removed: g -= 1
+        g2[g] = g2.get(g, 0) + cnt
+    return [sorted(patched), sorted(removed), sorted([g, c] for g, c in g2.items())]
+
+def planned_shape(i, plan, new_items, side):
+    removed = set(); gaps = {}
+    if plan.get('del_prev') == side: removed.add(i - 1)
+    if plan.get('del_next') == side: removed.add(i + 1)
+    if plan.get('ins_front') == side: gaps[i] = len(new_items['ins_front'])
+    if plan.get('ins_behind') == side: gaps[i + 1] = len(new_items['ins_behind'])
+    return _canon_shape({i}, removed, gaps)
+
+def observed_shape(d, path):
+    """the shape of the list diff found under `path` in the diff d (None when d does not patch its way down there)"""
+    for key in path:
+        nxt = [e for e in d if e.get('key') == key]
+        if len(nxt) != 1 or nxt[0].get('op') != 'patch': return None
+        d = nxt[0]['diff']
+    patched, removed, gaps = set(), set(), {}
+    for e in d:
+        if e['op'] == 'patch': patched.add(e['key'])
+        elif e['op'] == 'removerange': removed.update(range(e['key'], e['key'] + e['length']))
+        elif e['op'] == 'addrange': gaps[e['key']] = gaps.get(e['key'], 0) + len(e['valuelist'])
+        else: return None
+    return _canon_shape(patched, removed, gaps)
+
+def aligned_as_constructed(shape, ld, rd):
+    """adj-* notebook families: did the differ align the cells / outputs the way the construction did (same patched
+    item, same deleted neighbours, same gaps with the same number of new items on each side)?  With near-identical
+    neighbours (e.g. an empty code cell inserted in front of an empty code cell) another alignment is equally valid,
+    under which the sides' changes belong to other items than the expectation assumes."""
+    return observed_shape(ld, shape['path']) == shape['L'] and observed_shape(rd, shape['path']) == shape['R']
+
+def gen_adjacent_cell_triple(r, k=0):
+    """both sides patch ONE cell under different sub-keys (source / metadata / outputs / execution_count, or two
+    different metadata keys), and one side -- each in turn -- inserts new cells directly in front of / behind that cell
+    or deletes the neighbouring cell; all other cells stay as they are"""
+    for _ in range(100):
+        base = gennb.gen_notebook(r, ncells=r.choice([1, 2, 3, 3, 4, 5]), rich=(k % 2 == 0))
+        n = len(base['cells']); minor = base['nbformat_minor']; used = gennb.used_ids(base)
+        i = r.randrange(n); cell = base['cells'][i]; kind = cell['cell_type']
+        aspects = ['source', 'metadata'] + (['outputs', 'execution_count'] if kind == 'code' else [])
+        mdsplit = (k % 4 == 1)
+        tl, tr = copy.deepcopy(cell), copy.deepcopy(cell)
+        own = {'L': [], 'R': []}; mdown = None
+        if mdsplit:
+            md = cell['metadata']
+            present = [x for x in sorted(md) if x not in ('execution', 'format') and (x != 'scrolled' or kind == 'code')]
+            pools = {s: NEW_KEYS[s] + ([CELL_KEYS[j] for j in ((0, 2) if s == 'L' else (1, 3))]) for s in 'LR'}
+            mdown = _split_keys(r, present, pools)
+            for s, t in (('L', tl), ('R', tr)):
+                for key in mdown[s]: _edit_cell_key(r, t, key)
+                _only_changed(md, t['metadata'], set(mdown[s]), 'side ' + s)
+            rest = [a for a in aspects if a != 'metadata']
+            r.shuffle(rest)
+            if r.random() < 0.4: own[r.choice('LR')].append(rest[0])
+        else:
+            r.shuffle(aspects)
+            own['L'].append(aspects[0]); own['R'].append(aspects[1])
+            for a in aspects[2:]:
+                if r.random() < 0.25: own[r.choice('LR')].append(a)
+        for s, t in (('L', tl), ('R', tr)):
+            for a in own[s]:
+                if a == 'source': t['source'] = gennb.edit_source_text(r, t['source'], kind, r.choice(['tiny', 'tiny', 'line', 'newline']))
+                elif a == 'metadata': gennb.edit_cell_metadata(r, t)
+                elif a == 'outputs': gennb.edit_outputs(r, t)
+                else: t['execution_count'] = (t['execution_count'] or 0) + r.choice([1, 2, 10])
+            _only_changed(cell, t, set(own[s]) | ({'metadata'} if mdsplit else set()), 'side ' + s)
+        if not (_differs(tl, cell) and _differs(tr, cell)): continue
+        both = transplant(cell, tl, tr, own['L'], own['R'])
+        if mdsplit: both['metadata'] = transplant(cell['metadata'], tl['metadata'], tr['metadata'], mdown['L'], mdown['R'])
+        plan = _flank_plan(r, n, i, k)
+        new = {o: [gennb.gen_cell(r, minor, used, k % 2 == 0) for _ in range(r.choice([1, 1, 2]))] for o in ('ins_front', 'ins_behind')}
+        versions = {'L': tl, 'R': tr, 'LR': both}
+        def nb(sides):
+            x = copy.deepcopy(base); x['cells'] = _flank_build(base['cells'], i, versions, plan, new, sides); return x
+        shape = {'path': ['cells'], 'L': planned_shape(i, plan, new, 'L'), 'R': planned_shape(i, plan, new, 'R')}
+        return base, nb('L'), nb('R'), nb('LR'), shape
+    raise AssertionError('generator bug: no two-sided edit of one cell in 100 draws')
+
+def gen_adjacent_output_triple(r, k=0):
+    """both sides patch the metadata of ONE display_data / execute_result output under different keys, and one side --
+    each in turn -- inserts outputs directly in front of / behind it or deletes the neighbouring output"""
+    for _ in range(400):
+        base = gennb.gen_notebook(r, ncells=r.choice([1, 2, 3]), rich=True)
+        idx = [(i, j) for i, c in enumerate(base['cells']) if c['cell_type'] == 'code'
+               for j, o in enumerate(c['outputs']) if o['output_type'] in ('display_data', 'execute_result')]
+        if idx: break
+    else:
+        raise AssertionError('generator bug: no rich output in 400 draws')
+    i, j = r.choice(idx); cell = base['cells'][i]; outs = cell['outputs']; o = outs[j]; md = o['metadata']
+    pools = {'L': NEW_KEYS['L'] + ['needs_background'], 'R': NEW_KEYS['R'] + ['isolated']}
+    own = _split_keys(r, sorted(md), pools)
+    tl, tr = copy.deepcopy(o), copy.deepcopy(o)
+    for s, t in (('L', tl), ('R', tr)):
+        for key in own[s]:
+            if key == 'needs_background': t['metadata'][key] = 'dark' if t['metadata'].get(key) != 'dark' else 'light'
+            elif key == 'isolated': t['metadata'][key] = not t['metadata'].get(key, False)
+            else: _edit_free(r, t['metadata'], key)
+        _only_changed(md, t['metadata'], set(own[s]), 'side ' + s)
+    both = copy.deepcopy(o); both['metadata'] = transplant(md, tl['metadata'], tr['metadata'], own['L'], own['R'])
+    plan = _flank_plan(r, len(outs), j, k)
+    ec = cell.get('execution_count')
+    new = {op: [gennb.gen_output(r, ec, True, r.choice(['stream', 'display_data', 'error', 'display_data'])) for _ in range(r.choice([1, 1, 2]))]
+           for op in ('ins_front', 'ins_behind')}
+    versions = {'L': tl, 'R': tr, 'LR': both}
+    def nb(sides):
+        x = copy.deepcopy(base); x['cells'][i]['outputs'] = _flank_build(outs, j, versions, plan, new, sides); return x
+    shape = {'path': ['cells', i, 'outputs'], 'L': planned_shape(j, plan, new, 'L'), 'R': planned_shape(j, plan, new, 'R')}
+    return base, nb('L'), nb('R'), nb('LR'), shape
+
+def _flank_diff(i, sub, plan, new_items, side, n):
+    """the diff of the list for `side`, in nbdime's documented diff format, by construction"""
+    d = []
+    if plan.get('del_prev') == side: d.append({'op': 'removerange', 'key': i - 1, 'length': 1})
+    if plan.get('ins_front') == side: d.append({'op': 'addrange', 'key': i, 'valuelist': copy.deepcopy(new_items['ins_front'])})
+    d.append({'op': 'patch', 'key': i, 'diff': sub})
+    if plan.get('ins_behind') == side: d.append({'op': 'addrange', 'key': i + 1, 'valuelist': copy.deepcopy(new_items['ins_behind'])})
+    if plan.get('del_next') == side: d.append({'op': 'removerange', 'key': i + 1, 'length': 1})
+    return d
+
+def gen_adjacent_json(r, k, atom, fresh_atom):
+    """generic JSON: a list (at the root, under a key, two levels down) of objects or of lists; both sides patch item i
+    under different keys (objects) / at separated positions (inner lists), one side -- each in turn -- inserts items
+    directly in front of / behind item i or deletes its neighbour.  nbdime.diff never patches an item of a generic list
+    (it removes and re-adds it), so the two diffs are built here, in the documented diff format, next to the documents;
+    the caller checks them against pyspec.spec_patch.  Returns base, local, remote, expected, ld, rd."""
+    n = r.choice([1, 2, 3, 3, 4, 5]); i = r.randrange(n)
+    as_lists = (k % 4 == 3)
+    def item(p):
+        if as_lists: return [[p, q] for q in range(r.choice([3, 4, 5]))]
+        d = {kk: atom(r) for kk in r.sample(['x', 'y', 'z', 'k', 'p/q', '10', 'aa'], r.choice([2, 3, 4]))}
+        d['pos'] = p
+        return d
+    items = [item(p) for p in range(n)]
+    it = items[i]
+    tl, tr = copy.deepcopy(it), copy.deepcopy(it); sub = {'L': [], 'R': []}
+    if as_lists:
+        m = len(it)
+        # L works at the front of the inner list, R at its end; position 1 stays untouched in between
+        for s, t in (('L', tl), ('R', tr)):
+            what = r.choice(['ins', 'del', 'rep'])
+            p = 0 if s == 'L' else m - 1
+            if what in ('del', 'rep'): sub[s].append({'op': 'removerange', 'key': p, 'length': 1})
+            if what in ('ins', 'rep'):
+                g = p if (s == 'L' or what == 'rep') else m
+                sub[s].insert(0, {'op': 'addrange', 'key': g, 'valuelist': [['new', s, k]]})
+            if s == 'L':
+                if what != 'ins': del t[0]
+                if what != 'del': t.insert(0, ['new', s, k])
+            else:
+                if what == 'ins': t.append(['new', s, k])
+                elif what == 'del': del t[m - 1]
+                else: t[m - 1] = ['new', s, k]
+        # by construction: L's version of the front (everything before base position 1), base positions 1 .. m-2,
+        # R's version of the end (everything from base position m-1 on)
+        both = copy.deepcopy(tl[:len(tl) - (m - 1)]) + copy.deepcopy(it[1:m - 1]) + copy.deepcopy(tr[m - 1:])
+    else:
+        keys = [kk for kk in sorted(it) if kk != 'pos']
+        r.shuffle(keys)
+        own = {'L': keys[:1], 'R': keys[1:2]}
+        for kk in keys[2:]:
+            c = r.random()
+            if c < 0.3: own['L'].append(kk)
+            elif c < 0.6: own['R'].append(kk)
+        for s, t in (('L', tl), ('R', tr)):
+            for kk in sorted(own[s]):
+                if r.random() < 0.3:
+                    del t[kk]; sub[s].append({'op': 'remove', 'key': kk})
+                else:
+                    t[kk] = fresh_atom(r, it[kk]); sub[s].append({'op': 'replace', 'key': kk, 'value': copy.deepcopy(t[kk])})
+            if r.random() < 0.4:
+                kk = 'added_by_' + s; t[kk] = atom(r); sub[s].append({'op': 'add', 'key': kk, 'value': copy.deepcopy(t[kk])})
+            sub[s].sort(key=lambda e: e['key'])
+        both = transplant(it, tl, tr, own['L'] + ['added_by_L'], own['R'] + ['added_by_R'])
+    plan = _flank_plan(r, n, i, k)
+    new = {o: [({'pos': 'new', 'by': o, 'x': atom(r)} if not as_lists else [['fresh', o, q]]) for q in range(r.choice([1, 1, 2]))]
+           for o in ('ins_front', 'ins_behind')}
+    versions = {'L': tl, 'R': tr, 'LR': both}
+    docs = [items] + [_flank_build(items, i, versions, plan, new, s) for s in ('L', 'R', 'LR')]
+    ld = _flank_diff(i, sub['L'], plan, new, 'L', n); rd = _flank_diff(i, sub['R'], plan, new, 'R', n)
+    where = r.choice(['root', 'key', 'key', 'deep'])
+    if where == 'key':
+        docs = [{'items': d, 'other': 1} for d in docs]
+        ld = [{'op': 'patch', 'key': 'items', 'diff': ld}]; rd = [{'op': 'patch', 'key': 'items', 'diff': rd}]
+    elif where == 'deep':
+        docs = [{'outer': {'items': d, 'source': 'unchanged\n'}, 'other': [1]} for d in docs]
+        ld = [{'op': 'patch', 'key': 'outer', 'diff': [{'op': 'patch', 'key': 'items', 'diff': ld}]}]
+        rd = [{'op': 'patch', 'key': 'outer', 'diff': [{'op': 'patch', 'key': 'items', 'diff': rd}]}]
+    return docs[0], docs[1], docs[2], docs[3], ld, rd
